@@ -161,6 +161,20 @@ Proof.
   apply (cmp_rows_m_trans_l keys kinds a b c Ha Hb Hc).
 Qed.
 
+Theorem cmp_rows_m_antisym_l : forall keys kinds a b, typed_row keys kinds a = true -> typed_row keys kinds b = true ->
+  cmp_rows_m keys b a = CompOpp (cmp_rows_m keys a b).
+Proof.
+  intros keys kinds a b Ha Hb.
+  rewrite (cmp_rows_m_lex keys kinds a b Ha Hb), (cmp_rows_m_lex keys kinds b a Hb Ha). apply lex_antisym.
+Qed.
+Theorem cmp_rows_s_antisym_l : forall keys kinds a b, typed_row keys kinds a = true -> typed_row keys kinds b = true ->
+  cmp_rows_s keys b a = CompOpp (cmp_rows_s keys a b).
+Proof.
+  intros keys kinds a b Ha Hb.
+  rewrite (cmp_rows_s_m keys kinds a b Ha Hb), (cmp_rows_s_m keys kinds b a Hb Ha).
+  apply (cmp_rows_m_antisym_l keys kinds a b Ha Hb).
+Qed.
+
 (** across kinds the comparators answer Equal and are NOT transitive: Int 2 ~ Str 0 ~ Int 1 but Int 2 > Int 1 *)
 Lemma cmp_mixed_not_transitive_l :
   let keys := [{| k_col := 0; k_asc := true; k_nf := false |}] in
